@@ -1353,3 +1353,98 @@ Proof.
   unfold P_PORT. cbn [Nat.ltb Nat.leb N.of_nat Pos.of_succ_nat Pos.succ]. rewrite repr_of_conc, (pieces_set_port u None Hh).
   change (N.pos 6) with 6. rewrite flags_clear_port. reflexivity.
 Qed.
+
+(* ---------------------------------------------------------------------------------- *)
+(* pathname setter: the path is built in strp_ / path_seg_end_, then committed         *)
+(* ---------------------------------------------------------------------------------- *)
+
+(* the text of a list path, and the end offset of every segment in it (path_seg_end_) *)
+Definition pstr (segs : list str) : str := concat (map (fun s => 47 :: s) segs).
+Fixpoint pends_acc (acc : N) (segs : list str) : list N :=
+  match segs with
+  | [] => []
+  | s :: t => let a := acc + 1 + len s in a :: pends_acc a t
+  end.
+Definition pends (segs : list str) : list N := pends_acc 0 segs.
+
+(* the scratch members of the setter describe the segment list [segs] *)
+Definition PI (s : sst) (segs : list str) : Prop := s_strp s = pstr segs /\ s_pse s = pends segs.
+
+Lemma pstr_snoc segs x : pstr (segs ++ [x]) = pstr segs ++ 47 :: x.
+Proof. unfold pstr. rewrite map_app, concat_app. cbn [map concat]. rewrite app_nil_r. reflexivity. Qed.
+
+Lemma len_pstr_cons x segs : len (pstr (x :: segs)) = 1 + len x + len (pstr segs).
+Proof. unfold pstr. cbn [map concat]. rewrite len_app, len_cons. lia. Qed.
+
+Lemma pends_acc_snoc segs : forall a x,
+  pends_acc a (segs ++ [x]) = pends_acc a segs ++ [a + len (pstr segs) + 1 + len x].
+Proof.
+  induction segs as [|s t IH]; intros a x.
+  - cbn [app pends_acc pstr map concat]. rewrite len_nil. f_equal. lia.
+  - cbn [app pends_acc]. rewrite IH. cbn [app]. f_equal. f_equal. f_equal. rewrite len_pstr_cons. lia.
+Qed.
+
+Lemma pends_snoc segs x : pends (segs ++ [x]) = pends segs ++ [len (pstr (segs ++ [x]))].
+Proof. unfold pends. rewrite pends_acc_snoc, pstr_snoc, len_app, len_cons. f_equal. f_equal. lia. Qed.
+
+Lemma pends_length segs : forall a, length (pends_acc a segs) = length segs.
+Proof. induction segs as [|s t IH]; intro a; [reflexivity|]. cbn [pends_acc length]. rewrite IH. reflexivity. Qed.
+
+(* start_path_segment, the segment text, save_path_segment *)
+Lemma path_push s segs x : PI s segs ->
+  let s1 := v_save_path_segment true (do_append (v_start_path_segment true s) x) in
+  PI s1 (segs ++ [x]) /\ s_r s1 = s_r s /\ s_file s1 = s_file s.
+Proof.
+  destruct s as [r fl la us st pse cu tg]. unfold PI. cbn [s_strp s_pse]. intros [Hs Hp]. subst st pse.
+  unfold v_save_path_segment, v_start_path_segment, do_append, w_tgt, w_strp, w_pse.
+  cbn [s_r s_file s_last s_use s_strp s_pse s_curr s_tgt]. repeat split.
+  - rewrite pstr_snoc, <- app_assoc. reflexivity.
+  - rewrite pends_snoc, pstr_snoc, <- app_assoc. reflexivity.
+Qed.
+
+(* the Standard's "shorten a url's path" on the segment list *)
+Definition shorten_segs (file : bool) (segs : list str) : list str :=
+  match segs with
+  | [] => []
+  | [x] => if file && (match x with [c1; c2] => is_norm_win_drive c1 c2 | _ => false end) then [x] else []
+  | _ => removelast segs
+  end.
+
+Lemma pends_removelast segs x : pends (segs ++ [x]) = pends segs ++ [len (pstr (segs ++ [x]))].
+Proof. apply pends_snoc. Qed.
+
+Lemma path_shorten s segs : PI s segs ->
+  PI (set_shorten_path s) (shorten_segs (s_file s) segs) /\ s_r (set_shorten_path s) = s_r s /\
+  s_file (set_shorten_path s) = s_file s.
+Proof.
+  destruct s as [r fl la us st pse cu tg]. unfold PI. cbn [s_strp s_pse s_file s_r]. intros [Hs Hp]. subst st pse.
+  unfold set_shorten_path. cbn [s_pse s_strp s_file].
+  destruct segs as [|x [|y rest]].
+  - cbn. repeat split.
+  - cbn [pends pends_acc shorten_segs].
+    assert (Hx : pstr [x] = 47 :: x) by (unfold pstr; cbn; rewrite app_nil_r; reflexivity).
+    rewrite Hx.
+    assert (Hcond : ((len (47 :: x) =? 3) && match 47 :: x with [_; c1; c2] => is_norm_win_drive c1 c2 | _ => false end)
+                    = match x with [c1; c2] => is_norm_win_drive c1 c2 | _ => false end).
+    { destruct x as [|c1 [|c2 [|c3 r0]]]; try reflexivity; try (apply Bool.andb_false_r);
+        try (cbn [andb]; destruct (is_norm_win_drive c1 c2); reflexivity). }
+    rewrite <- Bool.andb_assoc, Hcond.
+    destruct (fl && match x with [c1; c2] => is_norm_win_drive c1 c2 | _ => false end).
+    + cbn [s_strp s_pse s_r s_file]. repeat split. symmetry. exact Hx.
+    + unfold w_strp, w_pse. cbn [s_strp s_pse s_r s_file]. repeat split.
+  - (* two or more segments: pop the last *)
+    assert (Hne : x :: y :: rest <> []) by discriminate.
+    destruct (exists_last Hne) as [front [lst Hfl]].
+    assert (Hfront : front <> []).
+    { intro E. subst front. cbn [app] in Hfl. discriminate. }
+    assert (Hsh : shorten_segs fl (x :: y :: rest) = front).
+    { cbn [shorten_segs]. rewrite Hfl. apply removelast_last. }
+    rewrite Hsh.
+    assert (Hpends : pends (x :: y :: rest) = pends front ++ [len (pstr (front ++ [lst]))]) by (rewrite Hfl; apply pends_snoc).
+    assert (Hlast : last (pends front) 0 = len (pstr front)).
+    { destruct (exists_last Hfront) as [f2 [l2 Hf2]]. rewrite Hf2, pends_snoc, last_last. reflexivity. }
+    assert (Hpl : length (pends (x :: y :: rest)) = S (S (length rest))) by (unfold pends; rewrite pends_length; reflexivity).
+    destruct (pends (x :: y :: rest)) as [|e0 [|e1 er]] eqn:Epe; [discriminate|discriminate|].
+    rewrite Hpends, removelast_last. unfold w_strp, w_pse. cbn [s_strp s_pse s_r s_file]. repeat split.
+    rewrite Hlast, Hfl, pstr_snoc. unfold resize. rewrite to_nat_len. apply firstn_len_app.
+Qed.
